@@ -165,6 +165,14 @@ cfg_if! {
 }
 
 pub fn utf8_valid_up_to(src: &[u8]) -> usize {
+    #[cfg(feature = "hsivonen_encoding_rs_verif")]
+    let fast_utf8_valid_up_to = |s: &[u8]| {
+        if crate::verif_hooks::force_scalar_utf8() {
+            None
+        } else {
+            fast_utf8_valid_up_to(s)
+        }
+    };
     if let Some(up_to) = fast_utf8_valid_up_to(src) {
         return up_to;
     }
